@@ -29,7 +29,7 @@ SCANNERS = {
                                                       if Callee(t["func"]).name == "num_threads" and Callee(t["func"]).crate in ("rayon", "rayon_core")]),
     "hash_iteration": ("hash_iteration", lambda ctx, f, b: I.hash_iterations(b)),
     "order_on_ids": ("order_on_ids", lambda ctx, f, b: I.order_uses(b, ("shred::world::ResourceId", "shred::ResourceId"))),
-    "hash_on_ids": ("hash_on_ids", lambda ctx, f, b: I.hash_uses(b, ("shred::world::ResourceId", "shred::ResourceId"))),
+    "hash_on_ids": ("hash_on_ids", lambda ctx, f, b: I.explicit_hashing(b)),
     "env_calls": ("env_sources", lambda ctx, f, b: I.marked_calls(b, I.ENV_MARKS)),
     "ptr_to_int": ("env_sources", lambda ctx, f, b: I.ptr_to_int_casts(b)),
     "cell_as_ptr": ("bypass_cell", lambda ctx, f, b: [(bb, Callee(t["func"])) for bb, t in b.normal_calls()
